@@ -423,6 +423,27 @@ class Facts:
                 for it in im["items"]:
                     if it["kind"] == "Fn":
                         self.trait_impls[(im["trait"], it["name"])].append(it["path"])
+        # local trait -> set of ADT paths implementing it; extern-trait impls per ADT
+        self.local_trait_impls = defaultdict(set)
+        self.extern_trait_impl_fns = defaultdict(list)
+        for im in self.impls:
+            tr = im.get("trait")
+            st = im["self_ty"]
+            if not tr or st.get("k") != "adt":
+                continue
+            if tr in self.traits:
+                self.local_trait_impls[tr].add(st["path"])
+            elif im.get("trait_crate") != LOCAL_CRATE:
+                # local ADTs named in the trait's own arguments (e.g. PartialEq<Other>) must also be
+                # among the instantiating types for extern generic code to be able to call the impl
+                needs = set()
+                for a in im.get("trait_args", [])[1:]:
+                    if isinstance(a, dict):
+                        self.local_adts_in_type(a, needs)
+                needs = {n for n in needs if n in self.adts}
+                for it in im["items"]:
+                    if it["kind"] == "Fn" and it["path"] in self.fns:
+                        self.extern_trait_impl_fns[st["path"]].append((it["path"], frozenset(needs)))
         # drop impls: adt path -> drop fn path
         self.drop_impls = {}
         for im in self.impls:
@@ -531,7 +552,25 @@ class Facts:
         tr = c.get("trait")
         if tr:
             m = c.get("method")
-            out.extend(p for p in self.trait_impls.get((tr, m), []) if p in self.fns)
+            cands = [p for p in self.trait_impls.get((tr, m), []) if p in self.fns]
+            # receiver is a type parameter: only impls for types satisfying its local trait bounds
+            bounds = c.get("self_bounds")
+            if bounds is not None:
+                need = [b for b in bounds if b in self.traits]
+                need_copy = "core::marker::Copy" in bounds
+
+                def ok(p):
+                    im = self.fns[p].j.get("impl") or {}
+                    st = im.get("self_ty", {})
+                    if st.get("k") != "adt":
+                        return not need
+                    if any(st["path"] not in self.local_trait_impls[b] for b in need):
+                        return False
+                    if need_copy and not (self.adts.get(st["path"]) or {}).get("is_copy", True):
+                        return False
+                    return True
+                cands = [p for p in cands if ok(p)]
+            out.extend(cands)
             dflt = "%s::%s" % (tr, m)
             if dflt in self.fns:
                 out.append(dflt)
@@ -547,8 +586,25 @@ class Facts:
             for f in self.fns.values():
                 edges = []  # (target path, bb, kind)
                 for b, t in f.calls():
-                    for tp in self.call_targets(f, t):
+                    tps = self.call_targets(f, t)
+                    for tp in tps:
                         edges.append((tp, b, "call"))
+                    if not tps and not f.blocks[b]["cleanup"]:
+                        # extern generic code may call back into local impls of extern traits
+                        # (Default, Clone, PartialEq, Zeroize, ...) of the local types it is instantiated with
+                        c = callee_of(t)
+                        if c is not None:
+                            seen_adts = set()
+                            for a in (c.get("resolved") or c).get("args", []) or []:
+                                if isinstance(a, dict):
+                                    self.local_adts_in_type(a, seen_adts)
+                            for a in c.get("args", []) or []:
+                                if isinstance(a, dict):
+                                    self.local_adts_in_type(a, seen_adts)
+                            for ap in seen_adts:
+                                for ip, needs in self.extern_trait_impl_fns.get(ap, []):
+                                    if needs <= seen_adts:
+                                        edges.append((ip, b, "callback"))
                 for b, t in f.iter_terms():
                     if t["k"] == "drop":
                         # drop glue -> local Drop impls of contained ADTs
@@ -614,7 +670,8 @@ class Facts:
     def recursive_fns(self, within=None):
         """Functions on a call-graph cycle (restricted to `within` if given)."""
         nodes = set(within) if within is not None else set(self.fns)
-        adj = {n: [t for t, _, _ in self.cg.get(n, []) if t in nodes] for n in nodes}
+        # cycles through extern-callback edges are artefacts of the over-approximation, not recursion
+        adj = {n: [t for t, _, k in self.cg.get(n, []) if t in nodes and k != "callback"] for n in nodes}
         index, low, on, stack, res = {}, {}, set(), [], []
         counter = [0]
         for root in sorted(nodes):
